@@ -71,12 +71,30 @@ EDGE_KINDS = ["call", "keep", "ref", "method"]
 BUILTIN_NAMES = ["format", "filter", "map", "sorted"]
 
 
+def localize(p, forms=False):
+    """The same program with its imports written inside the function bodies: `import dds` in every function and,
+    with forms=True, sibling modules imported by `import pkg.mod` inside the caller."""
+    for f in p["fns"].values():
+        f["local_dds"] = True
+    if forms:
+        for a in p["modules"]:
+            for b in p["modules"]:
+                if a != b:
+                    p["imports"][a + "->" + b] = "local_import_full"
+    return p
+
+
 def prog_cycle(pkg, edges, two_modules=False, builtin_names=False):
     """f0 -e0-> f1 -e1-> ... -> f0 ; main -> f0 (main is outside the cycle unless len(edges)==... )"""
     p = gen.new_program(pkg)
     m0 = gen.add_module(p, "c0")
     n = len(edges)
-    fids = [gen.add_fn(p, m0, (BUILTIN_NAMES[i] if builtin_names else "cy%d" % i), const=i) for i in range(n)]
+    if two_modules:
+        # functions alternate between two modules that import each other inside function bodies only
+        m1 = gen.add_module(p, "c1")
+        fids = [gen.add_fn(p, (m0, m1)[i % 2], "cy%d" % i, const=i) for i in range(n)]
+    else:
+        fids = [gen.add_fn(p, m0, (BUILTIN_NAMES[i] if builtin_names else "cy%d" % i), const=i) for i in range(n)]
     for i, e in enumerate(edges):
         tgt = fids[(i + 1) % n]
         f = p["fns"][fids[i]]
@@ -245,6 +263,10 @@ def build_cases(tier, seed):
             # a per-case leading segment keeps the cases of one batch (one store) independent of each other
             pref = "/case%d" % (n[0] + 1)
             add("overlap" if ov else "paths-ok", "OVERLAPPING_PATH" if ov else None, prog_paths("o%d" % n[0], [pref + x for x in t], pl), {"paths": list(t), "placement": pl, "adjacent": adjacent})
+            if pl != "data" and (tier != "quick" or (_hi(t) + seed) % 5 == 0 or pl == "two_modules"):
+                pref = "/case%d" % (n[0] + 1)
+                add("overlap" if ov else "paths-ok", "OVERLAPPING_PATH" if ov else None, localize(prog_paths("o%d" % n[0], [pref + x for x in t], pl), forms=True),
+                    {"paths": list(t), "placement": pl, "adjacent": adjacent, "imports": "function-local"})
     # ---- cycles
     for ln in (1, 2, 3, 4):
         for edges in itertools.product(EDGE_KINDS, repeat=ln):
@@ -253,11 +275,15 @@ def build_cases(tier, seed):
             add("cycle", "CIRCULAR_CALL", prog_cycle("y%d" % n[0], list(edges)), {"edges": list(edges)})
             if ln <= 3 or tier != "quick":
                 add("cycle", "CIRCULAR_CALL", prog_cycle("y%d" % n[0], list(edges), builtin_names=True), {"edges": list(edges), "names": "builtin-like"})
+                add("cycle", "CIRCULAR_CALL", localize(prog_cycle("y%d" % n[0], list(edges))), {"edges": list(edges), "imports": "function-local"})
+        # a cycle of plain calls through two modules that import each other inside the function bodies
+        add("cycle", "CIRCULAR_CALL", localize(prog_cycle("y%d" % n[0], ["call"] * ln, two_modules=True), forms=True), {"edges": ["call"] * ln, "imports": "function-local", "modules": 2})
     # ---- eval in eval
     for depth in range(0, 5):
         for via in ("call", "keep", "method"):
             add("eval-in-eval", "EVAL_IN_EVAL", prog_eval_in_eval("v%d" % n[0], depth, via), {"depth": depth, "via": via})
             add("eval-in-eval", "EVAL_IN_EVAL", prog_eval_in_eval("v%d" % n[0], depth, via, "eval"), {"depth": depth, "via": via, "spelling": "from dds import eval"})
+            add("eval-in-eval", "EVAL_IN_EVAL", localize(prog_eval_in_eval("v%d" % n[0], depth, via)), {"depth": depth, "via": via, "imports": "function-local"})
     return cases
 
 
@@ -266,7 +292,7 @@ def run(tier, seed):
     rep.rule = (
         "overlap: every ordered set of 1-3 paths (and sampled sets of 4) over %d paths (all paths of <=3 segments on {a,b} plus the confusers %r), keeps placed at top level / in a helper / nested in kept children / "
         "split over two modules / as data functions; cycles: every cycle of length 1-4 with each edge a plain call, a keep, a higher-order reference or a method call; dds.eval nested at depth 0-4 behind calls, keeps "
-        "and methods; each ill-formed evaluation is followed by a well-formed one in the same process. Ground truth (strict-prefix relation, generated call graph) decides the expected code. "
+        "and methods; variants with the imports (of dds, of sibling modules) written inside the function bodies; each ill-formed evaluation is followed by a well-formed one in the same process. Ground truth (strict-prefix relation, generated call graph) decides the expected code. "
         "distinct_nontrivial = distinct ill-formed cases that were rejected with the expected code." % (len(PATHS), CONFUSERS)
     )
     cases = build_cases(tier, seed)
